@@ -72,3 +72,7 @@ add('C16', 'fault_enumeration', 'differential testing against an independent COS
     'BCBs produced by a real source agent (Encrypt0 A128/A256GCM, Encrypt with A256KW) or by the reference source are checked on the wire (ciphertext differs from plaintext, independent decryption recovers it) and after every catalogue alteration / ciphertext bit flip against a fresh real receiver, which must deliver exactly when the independent decryptor still succeeds.',
     'AES-GCM/AES-KW primitives of the cryptography package are trusted; a fresh IV is supplied per operation.',
     'DESIGN.md section 3 C16')
+add('C13', 'exploration', 'model-based property testing over an in-memory datagram network with permutation/duplication/padding/concatenation of captured datagrams + exhaustive permutations of small segment sets; interval-coverage reference model',
+    'Real UDPCL agents send generated bundles through the paced transmit path on a virtual clock; every datagram is parsed by an independent CBOR reader (size, tiling, content) and then delivered to a real receiver in generated and exhaustively permuted orders with repeats, padding and message concatenation; announcements are compared with a coverage model keyed by peer and transfer id.',
+    'mtu >= 64; bundles are real RFC 9171 encodings; virtual clock inside udpcl.agent.',
+    'DESIGN.md section 3 C13')
